@@ -529,6 +529,20 @@ func (c07) Exec(sci interface{}, env *Env) *Violation {
 			}
 		}
 	}
+	if !sc.Dumb && base.ticks > 0 {
+		// ... and from inside the opcode fetch of the final HALT itself (first execution, and the next one
+		// while parked): the request is there before the HALT has finished executing
+		for _, kind := range sc.Kinds {
+			for _, t := range []uint64{base.ticks, base.ticks + 1} {
+				ev := kind
+				ev.AtTick = t
+				env.ExtraEvals++
+				if v := one([]world.Event{ev}); v != nil {
+					return v
+				}
+			}
+		}
+	}
 	return c07RunDriven(sc, env)
 }
 
